@@ -22,6 +22,7 @@
 #include "givinteger.h"
 #include "givintprime.h"
 #include "givintfactor.h"
+#include "givprimes16.h"
 
 using namespace Givaro;
 typedef Integer Z;
@@ -56,7 +57,12 @@ int main(int argc, char** argv) {
     GivRandom gen(987654321);
     IntPrimeDom IP;
     IntFactorDom<GivRandom> FD(gen);
-    signal(SIGALRM, on_signal); signal(SIGFPE, on_signal); signal(SIGSEGV, on_signal); signal(SIGABRT, on_signal);
+    {   // handlers run on an alternate stack so that a stack overflow (runaway recursion) is reported as CRASH, too
+        static char altstack[1 << 16];
+        stack_t ss; ss.ss_sp = altstack; ss.ss_size = sizeof(altstack); ss.ss_flags = 0; sigaltstack(&ss, 0);
+        struct sigaction sa; sa.sa_handler = on_signal; sigemptyset(&sa.sa_mask); sa.sa_flags = SA_ONSTACK | SA_NODEFER;
+        sigaction(SIGALRM, &sa, 0); sigaction(SIGFPE, &sa, 0); sigaction(SIGSEGV, &sa, 0); sigaction(SIGABRT, &sa, 0); sigaction(SIGBUS, &sa, 0);
+    }
     std::string line;
     while (std::getline(std::cin, line)) {
         std::istringstream in(line);
@@ -155,6 +161,7 @@ int main(int argc, char** argv) {
         // ------------------------------------------------------------ prime powers
         else if (op == "ipp") { unsigned int e = IP.isprimepower(q, a[0]); o << e << " " << q; }
         else if (op == "ipp.alias") { q = a[0]; unsigned int e = IP.isprimepower(q, q); o << e << " " << q; }
+        else if (op == "primes16") { size_t c = Primes16::count(); o << c; for (size_t i = 0; i < c; ++i) o << " " << Primes16::ith(i); }
         else o << "UNKNOWN-OP";
         arm(0);
         std::cout << o.str() << "\n";
